@@ -803,3 +803,53 @@ pub fn run_file(cases_path: &str, obs_path: &str, journal_path: &str) {
         let _ = obs.flush();
     }
 }
+
+
+/// Cold concurrent first use: a fresh process, `threads` named threads released by a spin barrier, every thread
+/// executes each case of the file once (in file order) as the very first use of that code in the process.
+/// Output: one line per (thread, case): `<thread>\t<case id>\tok|err|panic\t<hex fields...>`.
+pub fn run_cold_race(cases_path: &str, out_path: &str, threads: usize) {
+    use std::sync::atomic::{AtomicUsize, Ordering};
+    use std::sync::Arc;
+    let cases: Vec<Case> = std::fs::read_to_string(cases_path).expect("read cases").lines().filter_map(|l| Case::parse(l)).collect();
+    let cases = Arc::new(cases);
+    let ready = Arc::new(AtomicUsize::new(0));
+    let mut handles = vec![];
+    for t in 0..threads {
+        let (cases, ready) = (cases.clone(), ready.clone());
+        let h = std::thread::Builder::new().name(t.to_string()).stack_size(2 * 1024 * 1024).spawn(move || {
+            ready.fetch_add(1, Ordering::SeqCst);
+            while ready.load(Ordering::SeqCst) < threads {
+                std::hint::spin_loop();
+            }
+            let mut lines = vec![];
+            for case in cases.iter() {
+                let r = catch_unwind(AssertUnwindSafe(|| run_op(&case.op, &case.fields)));
+                let mut l = format!("{}\t{}\t", t, case.id);
+                match r {
+                    Ok(Ok(o)) => {
+                        l.push_str("ok");
+                        for f in o.fields {
+                            l.push('\t');
+                            l.push_str(&hex(&f));
+                        }
+                    }
+                    Ok(Err(e)) => l.push_str(&format!("err\t{}", hex(e.as_bytes()))),
+                    Err(_) => l.push_str("panic"),
+                }
+                lines.push(l);
+            }
+            lines
+        }).expect("spawn");
+        handles.push(h);
+    }
+    let mut out = std::io::BufWriter::new(std::fs::File::create(out_path).expect("out"));
+    for h in handles {
+        if let Ok(lines) = h.join() {
+            for l in lines {
+                let _ = writeln!(out, "{}", l);
+            }
+        }
+    }
+    let _ = out.flush();
+}
